@@ -12,7 +12,8 @@
 (* The spec never blocks: a failing clause is printed as                   *)
 (*     <<"BAD", line, run, "LogitFit", clause>>                            *)
 (* and the next clause / event is looked at.                               *)
-(* Clause names: Fits, Shape, Labels, Argmax, Stationary, Objective        *)
+(* Clause names: Fits, Shape, Finite, Labels, Argmax, Stationary,          *)
+(* Objective                                                               *)
 (* (property) and HarnessInput (the generator broke its own promises: a    *)
 (* tool error, not a violation).                                           *)
 (* Events whose numbers do not fit the 32-bit fixed-point budget are not   *)
@@ -42,9 +43,10 @@ HeadFails(e) ==
     IF ~InputOK(e) THEN {"HarnessInput"}
     ELSE IF e.status # "ok" THEN {"Fits"}
     ELSE IF ~ShapeOK(e) THEN {"Shape"}
+    ELSE IF ~FiniteOK(e) THEN {"Finite"}
     ELSE (IF LabelsOK(e) THEN {} ELSE {"Labels"})
          \cup (IF Scorable(e) /\ ~ArgmaxOK(e) THEN {"Argmax"} ELSE {})
-Judged(e) == InputOK(e) /\ e.status = "ok" /\ ShapeOK(e)
+Judged(e) == InputOK(e) /\ e.status = "ok" /\ ShapeOK(e) /\ FiniteOK(e)
 
 TailFails(e, a) ==
     (IF e.alphaNum > 0 /\ GradScorable(e) /\ ~StationaryFrom(e, a, StatBits) THEN {"Stationary"} ELSE {})
